@@ -56,6 +56,12 @@ theorem request_create_ok (s : State) (t : Target) (body opts : J) (h : (s.reque
     refine ⟨hn, _, ?_, created_ownerRefs d t body s.fresh⟩
     rw [hf, if_pos trivial, hp]
 
+theorem toResp_ok {o : Out} {x : J} (h : o.toResp = .obj x) : o.ok = true := by
+  unfold Out.toResp at h
+  split at h
+  · assumption
+  · cases h
+
 /-- **C02_update_lands_on_observed**: `o` was stored under `t` at some time (that is all a cache can hold).
     After any requests by anybody, an update that carries `o`'s resourceVersion - addressed to whatever target -
     is accepted only if that target is `t` and the live object is still exactly `o`.
